@@ -20,7 +20,8 @@ def main():
     if only:
         obs = [o for o in obs if only in o["id"]]
     return core.run_property(prop, obs, tier, note=getattr(mod, "NOTE", ""), level=getattr(mod, "LEVEL", "other"),
-                             assumptions=getattr(mod, "ASSUMPTIONS", ()), trusted=getattr(mod, "TRUSTED", ()))
+                             assumptions=getattr(mod, "ASSUMPTIONS", ()), trusted=getattr(mod, "TRUSTED", ()),
+                             pre_hook=getattr(mod, "PRE_HOOK", None) if not only else None)
 
 if __name__ == "__main__":
     sys.exit(main())
